@@ -38,7 +38,7 @@ const (
 	ImpSideEffect
 	ImpReexportStar
 	ImpReexportNamed
-	ImpUnused // imported but never referenced (tree shaking / sideEffects)
+	ImpUnused      // imported but never referenced (tree shaking / sideEffects)
 	ImpDynamicList // import() inside one array literal shared by all such imports of the module:
 	// reordering two of them changes nothing but which chunk is referenced where
 	NumImpStyles
@@ -88,10 +88,13 @@ type Project struct {
 	Entries   []int
 	PkgType   string // root package.json "type"
 	HasRootPJ bool
-	TS        *TSConfig
-	Twin      int               // index of a module that shares its base name with another one (0 = none)
-	Extra     map[string]string // additional raw files (relative path -> content)
-	ExtraDel  map[string]bool
+	PJPad     int  // layout of the root package.json: fields and lines in front of "type"
+	Legacy    bool // src/legacy.js (plain CommonJS text without import/export) is imported by module 0:
+	// inside a "type": "module" package its diagnostics carry notes that point into package.json
+	TS           *TSConfig
+	Twin         int               // index of a module that shares its base name with another one (0 = none)
+	Extra        map[string]string // additional raw files (relative path -> content)
+	ExtraDel     map[string]bool
 	ExtraEntries []string // raw files (keys of Extra) that are entry points too
 }
 
@@ -411,6 +414,13 @@ func (p *Project) RenderModule(m *Module) string {
 	}
 	var used []string
 	var lazyList []string
+	if p.Legacy && m.ID == 0 {
+		if cjs {
+			sb.WriteString("require(\"./legacy.js\");\n")
+		} else {
+			sb.WriteString("import \"./legacy.js\";\n")
+		}
+	}
 	for _, im := range m.Imports {
 		var t *Module
 		spec := p.spec(m, im)
@@ -610,7 +620,15 @@ func (p *Project) Render() map[string]string {
 		if p.PkgType != "" {
 			ty = fmt.Sprintf(`, "type": %q`, p.PkgType)
 		}
-		files["package.json"] = fmt.Sprintf(`{"name": "proj"%s}`, ty)
+		pad := ""
+		for i := 0; i < p.PJPad; i++ {
+			if i%2 == 0 {
+				pad += fmt.Sprintf(`, "pad%d": %d`, i, i)
+			} else {
+				pad += ",\n  \"description\": \"line\""
+			}
+		}
+		files["package.json"] = fmt.Sprintf(`{"name": "proj"%s%s}`, pad, ty)
 	}
 	if p.TS != nil {
 		files["tsconfig.json"] = p.TS.render()
@@ -619,6 +637,9 @@ func (p *Project) Render() map[string]string {
 		if !p.ExtraDel[k] {
 			files[k] = v
 		}
+	}
+	if p.Legacy {
+		files["src/legacy.js"] = "module.exports = { legacy: typeof exports };\nconsole.log(\"LEGACY\");\n"
 	}
 	return files
 }
@@ -781,4 +802,83 @@ var smVariants = []string{
 	`{"version":3,"sources":["orig.ts"],"names":[],"mappings":5}`,
 	`{"version":3,"sources":["orig.ts"],"names":{"a":1},"mappings":";;;;;;;;AAAA,,,"}`,
 	`{"version":3,"sourceRoot":"rel/root","sources":["../x/orig.ts"],"names":["n1","n2"],"mappings":"AAAAA,IAAIC;AACA"}`,
+}
+
+// AddCSSSite adds a small style-sheet site to the project: several CSS entry points
+// ("pages") that import shared sheets (some of them more than once, directly and through
+// other sheets), with @layer lists of one to four names, layer blocks, import conditions
+// and nested imports. Everything is raw (Extra) and the pages are extra entry points.
+func (p *Project) AddCSSSite(g G) {
+	nShared := 1 + g.n(3)
+	for i := 0; i < nShared; i++ {
+		var names []string
+		for j, n := 0, 1+g.n(4); j < n; j++ {
+			names = append(names, fmt.Sprintf("%c%d", 'a'+j, i))
+		}
+		p.Extra[fmt.Sprintf("css/shared_%d.css", i)] = fmt.Sprintf("@layer %s;\n:root { --gap%d: %dpx }\n.s%d { color: #%06x }\n", strings.Join(names, ", "), i, i+2, i, (i*99991+7)&0xffffff)
+	}
+	p.Extra["css/leaf.css"] = ".leaf { color: green }\n"
+	nPages := 2 + g.n(7)
+	// the pages of a site look alike: one template (a sequence of imports), which most
+	// pages follow and some deviate from
+	type imp struct{ kind, shared int }
+	draw := func(own int) []imp {
+		// the usual shape of a page: its resets, some shared sheets, its widget, extras
+		var t []imp
+		sharedImp := func() imp {
+			x := imp{kind: []int{1, 1, 4, 5}[g.n(4)], shared: g.n(nShared)}
+			if g.n(2) == 0 {
+				x.shared = own // the widget's sheet imported directly as well: a duplicate import
+			}
+			return x
+		}
+		if g.n(3) != 0 {
+			t = append(t, imp{kind: 0})
+		}
+		for i, n := 0, g.n(3); i < n; i++ {
+			t = append(t, sharedImp())
+		}
+		if g.n(3) != 0 {
+			t = append(t, imp{kind: 3})
+		}
+		if g.n(3) == 0 {
+			t = append(t, sharedImp())
+		}
+		if len(t) == 0 {
+			t = append(t, sharedImp())
+		}
+		return t
+	}
+	tmplOwn := g.n(nShared)
+	tmpl := draw(tmplOwn)
+	for k := 0; k < nPages; k++ {
+		own, seq := tmplOwn, tmpl
+		if g.n(5) == 0 {
+			own = g.n(nShared)
+			seq = draw(own)
+		}
+		p.Extra[fmt.Sprintf("css/first_%d.css", k)] = fmt.Sprintf("@layer first_%d;\n@import \"./leaf.css\";\n@layer first_%d { .first_%d { color: red } }\n", k, k, k)
+		p.Extra[fmt.Sprintf("css/widget_%d.css", k)] = fmt.Sprintf("@layer widget_%d;\n@import \"./shared_%d.css\";\n@layer widget_%d { .widget_%d { gap: var(--gap0) } }\n", k, own, k, k)
+		var sb strings.Builder
+		fmt.Fprintf(&sb, "@layer page_%d;\n", k)
+		for _, x := range seq {
+			sh := fmt.Sprintf("./shared_%d.css", x.shared)
+			switch x.kind {
+			case 0:
+				fmt.Fprintf(&sb, "@import \"./first_%d.css\";\n", k)
+			case 1, 2:
+				fmt.Fprintf(&sb, "@import %q;\n", sh)
+			case 3:
+				fmt.Fprintf(&sb, "@import \"./widget_%d.css\";\n", k)
+			case 4:
+				fmt.Fprintf(&sb, "@import %q layer(imported_%d);\n", sh, k)
+			case 5:
+				fmt.Fprintf(&sb, "@import %q screen;\n", sh)
+			}
+		}
+		fmt.Fprintf(&sb, "@layer page_%d { body { margin: %dpx } }\n", k, k)
+		name := fmt.Sprintf("css/page_%d.css", k)
+		p.Extra[name] = sb.String()
+		p.ExtraEntries = append(p.ExtraEntries, name)
+	}
 }
